@@ -5,10 +5,633 @@ From TR Require Import model.Ring model.RingSpec model.Detector model.DetSpec pr
 Import ListNotations.
 Open Scope Z_scope.
 
+(* ------------------------------------------------------------------------------------ *)
+(* Stream plumbing: runs over appended streams                                           *)
+(* ------------------------------------------------------------------------------------ *)
+
+Lemma drun_frame : forall c s f t,
+    drun c s (DFrame f :: t) =
+    (snd (detect c s f), s_thresh (fst (detect c s f))) :: drun c (fst (detect c s f)) t.
+Proof. intros c s f t. cbn [drun]. destruct (detect c s f) as [s' m]. reflexivity. Qed.
+
+Lemma drun_reset : forall c s t,
+    drun c s (DReset :: t) = (false, s_thresh (dreset s)) :: drun c (dreset s) t.
+Proof. reflexivity. Qed.
+
+Lemma drun_app : forall c a b s,
+    drun c s (a ++ b) = drun c s a ++ drun c (dfinal c s a) b.
+Proof.
+  intros c a b. induction a as [|e a IH]; intros s; [reflexivity|].
+  destruct e as [f|].
+  - rewrite <- app_comm_cons, !drun_frame. cbn [dfinal app]. now rewrite IH.
+  - rewrite <- app_comm_cons, !drun_reset. cbn [dfinal app]. now rewrite IH.
+Qed.
+
+Lemma drun_length : forall c evs s, length (drun c s evs) = length evs.
+Proof.
+  intros c evs. induction evs as [|e t IH]; intros s; [reflexivity|].
+  destruct e as [f|].
+  - rewrite drun_frame. cbn [length]. now rewrite IH.
+  - rewrite drun_reset. cbn [length]. now rewrite IH.
+Qed.
+
+Lemma verdicts_skip : forall c pre evs,
+    skipn (length pre) (verdicts c (pre ++ evs)) =
+    map fst (drun c (dfinal c (dinit c) pre) evs).
+Proof.
+  intros c pre evs. unfold verdicts. rewrite drun_app, map_app, skipn_app.
+  rewrite map_length, drun_length, Nat.sub_diag. cbn [skipn].
+  rewrite skipn_all2; [reflexivity|]. now rewrite map_length, drun_length.
+Qed.
+
+(* ------------------------------------------------------------------------------------ *)
+(* Field-wise description of [detect]                                                    *)
+(* ------------------------------------------------------------------------------------ *)
+
+(* any configuration: the verdict is suppressed around FFC, and the flag is recorded *)
+Lemma detect_affected : forall c s f,
+    s_affected (fst (detect c s f)) = affected_by_ffc f.
+Proof.
+  intros c s f. unfold detect.
+  destruct (d_dynamic c && negb (affected_by_ffc f)).
+  - destruct (update_background c s f (s_affected s)) as [[[bg' wts'] avg] changed].
+    destruct (s_firstdiff s); cbn [negb]; [|reflexivity].
+    destruct (affected_by_ffc f || s_affected s); reflexivity.
+  - destruct (s_firstdiff s); cbn [negb]; [|reflexivity].
+    destruct (affected_by_ffc f || s_affected s); reflexivity.
+Qed.
+
+Lemma detect_suppressed : forall c s f,
+    affected_by_ffc f || s_affected s = true -> snd (detect c s f) = false.
+Proof.
+  intros c s f H. unfold detect.
+  destruct (d_dynamic c && negb (affected_by_ffc f)).
+  - destruct (update_background c s f (s_affected s)) as [[[bg' wts'] avg] changed].
+    destruct (s_firstdiff s); cbn [negb]; [|reflexivity].
+    rewrite H. reflexivity.
+  - destruct (s_firstdiff s); cbn [negb]; [|reflexivity].
+    rewrite H. reflexivity.
+Qed.
+
+Lemma S09_supp_gen : forall c evs s,
+    S09_supp (s_affected s) evs (map fst (drun c s evs)) = true.
+Proof.
+  intros c evs. induction evs as [|e t IH]; intros s; [reflexivity|].
+  destruct e as [f|].
+  - rewrite drun_frame. cbn [map fst S09_supp].
+    rewrite <- (detect_affected c s f) at 2. rewrite IH, andb_true_r.
+    destruct (affected_by_ffc f || s_affected s) eqn:E; [|reflexivity].
+    rewrite (detect_suppressed c s f E). reflexivity.
+  - rewrite drun_reset. cbn [map fst S09_supp negb andb].
+    change (s_affected s) with (s_affected (dreset s)). apply IH.
+Qed.
+
 (* every configuration, fixed or dynamic threshold, any stream *)
 Theorem S09_supp_holds : forall c evs,
     S09_supp false evs (verdicts c evs) = true.
-Admitted.
+Proof. intros c evs. exact (S09_supp_gen c evs (dinit c)). Qed.
+
+(* ------------------------------------------------------------------------------------ *)
+(* Fixed threshold: field-wise description of [detect]                                   *)
+(* ------------------------------------------------------------------------------------ *)
+
+(* the frame takes the "FFC branch" (marks itself as the oldest frame to compare against) *)
+Definition ffc_branch (s : dstate) (f : frame) : bool :=
+  s_firstdiff s && (affected_by_ffc f || s_affected s).
+
+Definition cmp_frame (c : dcfg) (s : dstate) (f : frame) : frame :=
+  oldest_slot (blank_frame c) (put (s_floored s) f).
+
+Definition new_diff (c : dcfg) (s : dstate) (f : frame) : grid :=
+  diff_grid c (s_thresh s) (f_pix f) (f_pix (cmp_frame c s f)).
+
+Lemma detect_fixed_floored : forall c s f, d_dynamic c = false ->
+    s_floored (fst (detect c s f)) =
+    if ffc_branch s f then move (set_as_oldest (put (s_floored s) f))
+    else move (put (s_floored s) f).
+Proof.
+  intros c s f Hd. unfold detect, ffc_branch. rewrite Hd. cbn [andb].
+  destruct (s_firstdiff s); cbn [negb andb]; [|reflexivity].
+  destruct (affected_by_ffc f || s_affected s); reflexivity.
+Qed.
+
+Lemma detect_fixed_diffs : forall c s f, d_dynamic c = false ->
+    s_diffs (fst (detect c s f)) = move (put (s_diffs s) (new_diff c s f)).
+Proof.
+  intros c s f Hd. unfold detect, new_diff, cmp_frame. rewrite Hd. cbn [andb].
+  destruct (s_firstdiff s); cbn [negb andb]; [|reflexivity].
+  destruct (affected_by_ffc f || s_affected s); reflexivity.
+Qed.
+
+Lemma detect_fixed_firstdiff : forall c s f, d_dynamic c = false ->
+    s_firstdiff (fst (detect c s f)) = negb (ffc_branch s f).
+Proof.
+  intros c s f Hd. unfold detect, ffc_branch. rewrite Hd. cbn [andb].
+  destruct (s_firstdiff s); cbn [negb andb]; [|reflexivity].
+  destruct (affected_by_ffc f || s_affected s); reflexivity.
+Qed.
+
+Lemma detect_fixed_thresh : forall c s f, d_dynamic c = false ->
+    s_thresh (fst (detect c s f)) = s_thresh s.
+Proof.
+  intros c s f Hd. unfold detect. rewrite Hd. cbn [andb].
+  destruct (s_firstdiff s); cbn [negb andb]; [|reflexivity].
+  destruct (affected_by_ffc f || s_affected s); reflexivity.
+Qed.
+
+Lemma detect_fixed_verdict : forall c s f, d_dynamic c = false ->
+    snd (detect c s f) =
+    s_firstdiff s && negb (affected_by_ffc f || s_affected s) &&
+    has_motion c (new_diff c s f)
+               (current (zero_grid c) (move (put (s_diffs s) (new_diff c s f)))).
+Proof.
+  intros c s f Hd. unfold detect, new_diff, cmp_frame. rewrite Hd. cbn [andb].
+  destruct (s_firstdiff s); cbn [negb andb]; [|reflexivity].
+  destruct (affected_by_ffc f || s_affected s); reflexivity.
+Qed.
+
+(* ------------------------------------------------------------------------------------ *)
+(* Lists, grids                                                                          *)
+(* ------------------------------------------------------------------------------------ *)
+
+Lemma len_upd : forall A (l : list A) n v, length (upd l n v) = length l.
+Proof. induction l as [|h t IH]; intros [|n] v; cbn; auto. Qed.
+
+Lemma nth_upd : forall A (d : A) (l : list A) n m v,
+    (n < length l)%nat ->
+    nth m (upd l n v) d = if Nat.eqb m n then v else nth m l d.
+Proof.
+  induction l as [|h t IH]; intros [|n] [|m] v H; cbn in *; try lia; try reflexivity.
+  apply IH. lia.
+Qed.
+
+Lemma zth_upd : forall A (d : A) (l : list A) n c i v,
+    length l = Z.to_nat n -> 0 <= c < n -> 0 <= i ->
+    zth d (upd l (Z.to_nat c) v) i = if i =? c then v else zth d l i.
+Proof.
+  intros A d l n c i v Hl Hc Hi. unfold zth. rewrite nth_upd by lia.
+  destruct (Z.eqb_spec i c) as [->|Hne].
+  - now rewrite Nat.eqb_refl.
+  - destruct (Nat.eqb_spec (Z.to_nat i) (Z.to_nat c)) as [E|E]; [lia|reflexivity].
+Qed.
+
+Lemma rem_next : forall n c, 0 <= c < n ->
+    Z.rem (c + 1) n = if c + 1 =? n then 0 else c + 1.
+Proof.
+  intros n c Hc. destruct (Z.eqb_spec (c + 1) n) as [E|E].
+  - rewrite E. apply Z.rem_same. lia.
+  - apply Z.rem_small. lia.
+Qed.
+
+Definition gnonneg (g : grid) : Prop := forall y x, 0 <= gget g y x.
+
+Lemma gget_gbuild : forall h w f y x,
+    gget (gbuild h w f) y x = if (Nat.ltb y h && Nat.ltb x w)%bool then f y x else 0.
+Proof.
+  intros h w f y x. unfold gget, gbuild.
+  destruct (Nat.ltb_spec y h) as [Hy|Hy].
+  - rewrite (nth_indep _ [] (map (fun x0 => f 0%nat x0) (seq 0 w))) by (now rewrite map_length, seq_length).
+    rewrite (map_nth (fun y0 => map (fun x0 => f y0 x0) (seq 0 w)) (seq 0 h) 0%nat y).
+    rewrite seq_nth by assumption. cbn [Nat.add andb].
+    destruct (Nat.ltb_spec x w) as [Hx|Hx].
+    + rewrite (nth_indep _ 0 (f y 0%nat)) by (now rewrite map_length, seq_length).
+      rewrite (map_nth (fun x0 => f y x0) (seq 0 w) 0%nat x).
+      now rewrite seq_nth by assumption.
+    + apply nth_overflow. now rewrite map_length, seq_length.
+  - cbn [andb]. rewrite (nth_overflow _ []) by (now rewrite map_length, seq_length).
+    now destruct x.
+Qed.
+
+Lemma zero_grid_nonneg : forall c, gnonneg (zero_grid c).
+Proof.
+  intros c y x. unfold zero_grid. rewrite gget_gbuild.
+  destruct (_ && _)%bool; lia.
+Qed.
+
+Lemma diff_grid_nonneg : forall c t a b, gnonneg (diff_grid c t a b).
+Proof.
+  intros c t a b y x. unfold diff_grid. rewrite gget_gbuild.
+  destruct (_ && _)%bool; [|lia].
+  destruct (interior c y x); [|lia].
+  destruct (d_warmer c).
+  - unfold warmer_diff. destruct (Z.ltb_spec (floor_to t (gget a y x) - floor_to t (gget b y x)) 0); lia.
+  - unfold abs_diff. lia.
+Qed.
+
+Lemma diff_grid_self : forall c t a y x, gget (diff_grid c t a a) y x = 0.
+Proof.
+  intros c t a y x. unfold diff_grid. rewrite gget_gbuild.
+  destruct (_ && _)%bool; [|reflexivity].
+  destruct (interior c y x); [|reflexivity].
+  destruct (d_warmer c).
+  - unfold warmer_diff. rewrite Z.sub_diag. reflexivity.
+  - unfold abs_diff. rewrite Z.sub_diag. reflexivity.
+Qed.
+
+Lemma icount_ext : forall c p q,
+    (forall y x, p y x = q y x) -> icount c p = icount c q.
+Proof.
+  intros c p q H. unfold icount. generalize 0 as n. generalize (icoords c) as l.
+  induction l as [|yx l IH]; intros n; [reflexivity|].
+  cbn [fold_left]. rewrite H. apply IH.
+Qed.
+
+(* comparing a frame against itself: the stale previous diff grid is irrelevant *)
+Lemma has_motion_self : forall c dg p1 p2,
+    (forall y x, gget dg y x = 0) -> gnonneg p1 -> gnonneg p2 ->
+    has_motion c dg p1 = has_motion c dg p2.
+Proof.
+  intros c dg p1 p2 Hz H1 H2. unfold has_motion.
+  destruct (d_one c); [reflexivity|].
+  f_equal. apply icount_ext. intros y x. rewrite Hz.
+  destruct (Z.ltb_spec (d_delta c) 0) as [Hlt|Hge]; [|reflexivity].
+  cbn [andb]. specialize (H1 y x). specialize (H2 y x).
+  destruct (Z.ltb_spec (d_delta c) (gget p1 y x)); destruct (Z.ltb_spec (d_delta c) (gget p2 y x)); try reflexivity; lia.
+Qed.
+
+Lemma has_motion_one : forall c dg p1 p2, d_one c = true ->
+    has_motion c dg p1 = has_motion c dg p2.
+Proof. intros c dg p1 p2 H. unfold has_motion. now rewrite H. Qed.
+
+(* ------------------------------------------------------------------------------------ *)
+(* Rings: well-formedness, equal control fields, clean slots                             *)
+(* ------------------------------------------------------------------------------------ *)
+
+Section RingRel.
+  Variable A : Type.
+  Variable d : A.
+
+  (* well-formed ring of capacity n *)
+  Definition rwf (n : Z) (r : ring A) : Prop :=
+    size r = n /\ 0 <= cur r < n /\ -1 <= oldest r < n /\ length (slots r) = Z.to_nat n.
+
+  (* equal control fields (everything but the slot contents) *)
+  Definition rceq (r1 r2 : ring A) : Prop :=
+    size r1 = size r2 /\ cur r1 = cur r2 /\ full r1 = full r2 /\ oldest r1 = oldest r2.
+
+  Lemma rwf_new : forall n b, 2 <= n -> rwf n (new_ring n b).
+  Proof.
+    intros n b Hn. unfold rwf, new_ring. cbn [size cur oldest slots].
+    rewrite repeat_length. lia.
+  Qed.
+
+  Lemma rwf_put : forall n r v, rwf n r -> rwf n (put r v).
+  Proof.
+    intros n r v (Hs & Hc & Ho & Hl). unfold rwf, put. cbn [size cur oldest slots].
+    rewrite len_upd. auto.
+  Qed.
+
+  Lemma rwf_mark : forall n r, rwf n r -> rwf n (set_as_oldest r).
+  Proof.
+    intros n r (Hs & Hc & Ho & Hl). unfold rwf, set_as_oldest. cbn [size cur oldest slots].
+    repeat split; auto; lia.
+  Qed.
+
+  Lemma rwf_move : forall n r, rwf n r -> rwf n (move r).
+  Proof.
+    intros n r (Hs & Hc & Ho & Hl). unfold rwf, move, next_index_after.
+    cbn [size cur oldest slots]. rewrite Hs, rem_next by assumption.
+    unfold NO_OLDEST_SET.
+    destruct (Z.eqb_spec (cur r + 1) n);
+      match goal with |- context [?a =? oldest r] => destruct (Z.eqb_spec a (oldest r)) end;
+      repeat split; auto; lia.
+  Qed.
+
+  Lemma rwf_reset : forall n r, rwf n r -> rwf n (reset r).
+  Proof.
+    intros n r (Hs & Hc & Ho & Hl). unfold rwf, reset. cbn [size cur oldest slots].
+    repeat split; auto; lia.
+  Qed.
+
+  Lemma rceq_refl : forall r, rceq r r.
+  Proof. intros r. unfold rceq. auto. Qed.
+
+  Lemma rceq_put : forall r1 r2 v1 v2, rceq r1 r2 -> rceq (put r1 v1) (put r2 v2).
+  Proof. intros r1 r2 v1 v2 H. exact H. Qed.
+
+  Lemma rceq_mark : forall r1 r2, rceq r1 r2 -> rceq (set_as_oldest r1) (set_as_oldest r2).
+  Proof.
+    intros r1 r2 (Hs & Hc & Hf & Ho). unfold rceq, set_as_oldest. cbn [size cur full oldest].
+    auto.
+  Qed.
+
+  Lemma rceq_move : forall r1 r2, rceq r1 r2 -> rceq (move r1) (move r2).
+  Proof.
+    intros r1 r2 (Hs & Hc & Hf & Ho). unfold rceq, move, next_index_after.
+    cbn [size cur full oldest]. rewrite Hs, Hc, Hf, Ho. auto.
+  Qed.
+
+  Lemma rceq_reset : forall r1 r2, rceq r1 r2 -> rceq (reset r1) (reset r2).
+  Proof.
+    intros r1 r2 (Hs & Hc & Hf & Ho). unfold rceq, reset. cbn [size cur full oldest]. auto.
+  Qed.
+
+  (* how long ago slot i was written, in moves: 0 for the current slot *)
+  Definition age (n c i : Z) : Z := if i <=? c then c - i else c - i + n.
+
+  (* Every slot (other than the current one, which the next frame overwrites before anything
+     is read) that is at most as old as the marked slot holds the same data in both rings;
+     without a mark, every slot other than the current one does. *)
+  Definition fclean (r1 r2 : ring A) : Prop :=
+    forall i, 0 <= i < size r1 -> i <> cur r1 ->
+      (oldest r1 = -1 \/ age (size r1) (cur r1) i <= age (size r1) (cur r1) (oldest r1)) ->
+      zth d (slots r1) i = zth d (slots r2) i.
+
+  Lemma oldest_put_eq : forall n r1 r2 v, 2 <= n ->
+      rwf n r1 -> rwf n r2 -> rceq r1 r2 -> fclean r1 r2 ->
+      oldest_slot d (put r1 v) = oldest_slot d (put r2 v).
+  Proof.
+    intros n r1 r2 v Hn (Hs1 & Hc1 & Ho1 & Hl1) (Hs2 & Hc2 & Ho2 & Hl2) (Hs & Hc & Hf & Ho) Hcl.
+    unfold oldest_slot, put, next_index_after. cbn [size cur oldest slots].
+    rewrite <- Hs, <- Hc, <- Ho, Hs1. unfold NO_OLDEST_SET.
+    destruct (Z.eqb_spec (oldest r1) (-1)) as [E|E]; cbn [negb].
+    - rewrite rem_next by assumption.
+      rewrite !(zth_upd A d _ n) by (destruct (Z.eqb_spec (cur r1 + 1) n); auto; lia).
+      destruct (Z.eqb_spec (cur r1 + 1) n) as [E1|E1].
+      + destruct (Z.eqb_spec 0 (cur r1)); [reflexivity|]. apply Hcl; auto; lia.
+      + destruct (Z.eqb_spec (cur r1 + 1) (cur r1)); [reflexivity|]. apply Hcl; auto; lia.
+    - rewrite !(zth_upd A d _ n) by (auto; lia).
+      destruct (Z.eqb_spec (oldest r1) (cur r1)); [reflexivity|].
+      apply Hcl; auto; lia.
+  Qed.
+
+  Lemma oldest_put_self : forall n r v, rwf n r -> oldest r = cur r ->
+      oldest_slot d (put r v) = v.
+  Proof.
+    intros n r v (Hs & Hc & Ho & Hl) E.
+    unfold oldest_slot, put. cbn [size cur oldest slots]. rewrite E. unfold NO_OLDEST_SET.
+    destruct (Z.eqb_spec (cur r) (-1)); [lia|]. cbn [negb].
+    rewrite (zth_upd A d _ n) by (auto; lia). now rewrite Z.eqb_refl.
+  Qed.
+
+  Lemma fclean_step : forall n r1 r2 v, 2 <= n ->
+      rwf n r1 -> rwf n r2 -> rceq r1 r2 -> fclean r1 r2 ->
+      fclean (move (put r1 v)) (move (put r2 v)).
+  Proof.
+    intros n r1 r2 v Hn (Hs1 & Hc1 & Ho1 & Hl1) (Hs2 & Hc2 & Ho2 & Hl2) (Hs & Hc & Hf & Ho) Hcl.
+    unfold fclean, move, put, next_index_after. cbn [size cur oldest slots].
+    rewrite <- Hc, Hs1, rem_next by assumption. unfold NO_OLDEST_SET.
+    intros i Hi Hne Hage.
+    rewrite !(zth_upd A d _ n) by (auto; lia).
+    destruct (Z.eqb_spec i (cur r1)) as [Ei|Ei]; [reflexivity|].
+    apply Hcl; [lia|assumption|]. rewrite Hs1.
+    destruct (Z.eqb_spec (oldest r1) (-1)) as [Eo|Eo]; [now left|right].
+    revert Hne Hage. unfold age.
+    destruct (Z.eqb_spec (cur r1 + 1) n) as [E1|E1];
+      match goal with |- context [?a =? oldest r1] => destruct (Z.eqb_spec a (oldest r1)) as [E2|E2] end;
+      repeat match goal with |- context [?a <=? ?b] => destruct (Z.leb_spec a b) end; lia.
+  Qed.
+
+  Lemma fclean_mark : forall n r1 r2 v, 2 <= n ->
+      rwf n r1 -> rwf n r2 -> rceq r1 r2 ->
+      fclean (move (set_as_oldest (put r1 v))) (move (set_as_oldest (put r2 v))).
+  Proof.
+    intros n r1 r2 v Hn (Hs1 & Hc1 & Ho1 & Hl1) (Hs2 & Hc2 & Ho2 & Hl2) (Hs & Hc & Hf & Ho).
+    unfold fclean, move, set_as_oldest, put, next_index_after. cbn [size cur oldest slots].
+    rewrite <- Hc, Hs1, rem_next by assumption. unfold NO_OLDEST_SET.
+    intros i Hi Hne Hage.
+    rewrite !(zth_upd A d _ n) by (auto; lia).
+    destruct (Z.eqb_spec i (cur r1)) as [Ei|Ei]; [reflexivity|]. exfalso.
+    revert Hne Hage. unfold age.
+    destruct (Z.eqb_spec (cur r1 + 1) n) as [E1|E1];
+      match goal with |- context [?a =? cur r1] => destruct (Z.eqb_spec a (cur r1)) as [E2|E2] end;
+      repeat match goal with |- context [?a <=? ?b] => destruct (Z.leb_spec a b) end; lia.
+  Qed.
+
+  Lemma fclean_reset : forall r1 r2, fclean (reset r1) (reset r2).
+  Proof.
+    intros r1 r2. unfold fclean, reset. cbn [size cur oldest slots].
+    intros i Hi Hne Hage. exfalso. revert Hage. unfold age.
+    repeat match goal with |- context [?a <=? ?b] => destruct (Z.leb_spec a b) end; lia.
+  Qed.
+End RingRel.
+
+Arguments rwf {A} n r.
+Arguments rceq {A} r1 r2.
+Arguments fclean {A} d r1 r2.
+
+(* ------------------------------------------------------------------------------------ *)
+(* Control state: evolves independently of pixel data                                    *)
+(* ------------------------------------------------------------------------------------ *)
+
+(* well-formed diff ring: capacity 2, non-negative entries *)
+Definition dwf (c : dcfg) (r : ring grid) : Prop :=
+  rwf 2 r /\ gnonneg (zth (zero_grid c) (slots r) 0) /\ gnonneg (zth (zero_grid c) (slots r) 1).
+
+Record ctrl_eq (c : dcfg) (s1 s2 : dstate) : Prop := mkCE {
+  ce_fwf1 : rwf (d_gap c + 1) (s_floored s1);
+  ce_fwf2 : rwf (d_gap c + 1) (s_floored s2);
+  ce_feq : rceq (s_floored s1) (s_floored s2);
+  ce_dwf1 : dwf c (s_diffs s1);
+  ce_dwf2 : dwf c (s_diffs s2);
+  ce_deq : rceq (s_diffs s1) (s_diffs s2);
+  ce_first : s_firstdiff s1 = s_firstdiff s2;
+  ce_aff : s_affected s1 = s_affected s2;
+  ce_thresh : s_thresh s1 = s_thresh s2
+}.
+
+Lemma dwf_new : forall c, dwf c (new_ring 2 (zero_grid c)).
+Proof.
+  intros c. split; [apply rwf_new; lia|].
+  split; apply zero_grid_nonneg.
+Qed.
+
+Lemma dwf_step : forall c r t a b, dwf c r -> dwf c (move (put r (diff_grid c t a b))).
+Proof.
+  intros c r t a b (Hw & H0 & H1). split; [now apply rwf_move, rwf_put|].
+  destruct Hw as (Hs & Hc & Ho & Hl).
+  unfold move, put. cbn [slots cur].
+  rewrite !(zth_upd _ (zero_grid c) _ 2) by (auto; lia).
+  split.
+  - destruct (0 =? cur r); [apply diff_grid_nonneg|exact H0].
+  - destruct (1 =? cur r); [apply diff_grid_nonneg|exact H1].
+Qed.
+
+Lemma dwf_reset : forall c r, dwf c r -> dwf c (reset r).
+Proof. intros c r (Hw & H0 & H1). split; [now apply rwf_reset|]. split; assumption. Qed.
+
+Lemma ctrl_eq_init : forall c, 1 <= d_gap c -> ctrl_eq c (dinit c) (dinit c).
+Proof.
+  intros c Hg. unfold dinit. constructor; cbn [s_floored s_diffs s_firstdiff s_affected s_thresh];
+    try reflexivity; try apply rceq_refl; try apply dwf_new; apply rwf_new; lia.
+Qed.
+
+Lemma ctrl_eq_detect : forall c s1 s2 f g,
+    d_dynamic c = false -> ctrl_eq c s1 s2 ->
+    affected_by_ffc f = affected_by_ffc g ->
+    ctrl_eq c (fst (detect c s1 f)) (fst (detect c s2 g)).
+Proof.
+  intros c s1 s2 f g Hd [Hw1 Hw2 He Hd1 Hd2 Hde Hf Ha Ht] Hfg.
+  assert (Hb : ffc_branch s1 f = ffc_branch s2 g) by (unfold ffc_branch; now rewrite Hf, Ha, Hfg).
+  constructor.
+  - rewrite detect_fixed_floored by assumption.
+    destruct (ffc_branch s1 f); auto using rwf_move, rwf_mark, rwf_put.
+  - rewrite detect_fixed_floored by assumption.
+    destruct (ffc_branch s2 g); auto using rwf_move, rwf_mark, rwf_put.
+  - rewrite !detect_fixed_floored by assumption. rewrite <- Hb.
+    destruct (ffc_branch s1 f); auto using rceq_move, rceq_mark, rceq_put.
+  - rewrite detect_fixed_diffs by assumption. now apply dwf_step.
+  - rewrite detect_fixed_diffs by assumption. now apply dwf_step.
+  - rewrite !detect_fixed_diffs by assumption. now apply rceq_move, rceq_put.
+  - rewrite !detect_fixed_firstdiff by assumption. now rewrite Hb.
+  - now rewrite !detect_affected.
+  - now rewrite !detect_fixed_thresh.
+Qed.
+
+Lemma ctrl_eq_reset : forall c s1 s2, ctrl_eq c s1 s2 -> ctrl_eq c (dreset s1) (dreset s2).
+Proof.
+  intros c s1 s2 [Hw1 Hw2 He Hd1 Hd2 Hde Hf Ha Ht]. unfold dreset.
+  constructor; cbn [s_floored s_diffs s_firstdiff s_affected s_thresh];
+    auto using rwf_reset, rceq_reset, dwf_reset.
+Qed.
+
+(* ------------------------------------------------------------------------------------ *)
+(* The relation between two runs that have entered the common suffix                     *)
+(* ------------------------------------------------------------------------------------ *)
+
+(* The diff grid the next frame reads as "previous diff" is the same in both runs, or is not
+   looked at (one diff only), or the next frame is compared against itself (first frame after
+   a reset), which makes its own diff grid zero. *)
+Definition dinv (c : dcfg) (s1 s2 : dstate) : Prop :=
+  d_one c = true \/
+  zth (zero_grid c) (slots (s_diffs s1)) (1 - cur (s_diffs s1)) =
+  zth (zero_grid c) (slots (s_diffs s2)) (1 - cur (s_diffs s1)) \/
+  oldest (s_floored s1) = cur (s_floored s1).
+
+Record related (c : dcfg) (s1 s2 : dstate) : Prop := mkRel {
+  rel_ctrl : ctrl_eq c s1 s2;
+  (* the floored ring is clean, or the next frame takes the FFC branch (and cleans it) *)
+  rel_floor : fclean (blank_frame c) (s_floored s1) (s_floored s2) \/
+              (s_firstdiff s1 = true /\ s_affected s1 = true);
+  (* the diff ring is clean, or the next frame returns false without looking *)
+  rel_diff : dinv c s1 s2 \/ s_firstdiff s1 = false \/ s_affected s1 = true
+}.
+
+(* the diff slot read as "previous diff" *)
+Lemma prev_diff_slot : forall c r g, rwf 2 r ->
+    current (zero_grid c) (move (put r g)) = zth (zero_grid c) (slots r) (1 - cur r).
+Proof.
+  intros c r g (Hs & Hc & Ho & Hl). unfold current, move, put, next_index_after.
+  cbn [size cur slots]. rewrite Hs, rem_next by assumption.
+  rewrite (zth_upd _ (zero_grid c) _ 2) by (auto; destruct (Z.eqb_spec (cur r + 1) 2); lia).
+  assert (E : cur r = 0 \/ cur r = 1) by lia. destruct E as [E|E]; rewrite E; reflexivity.
+Qed.
+
+(* the diff slot written by this frame is the one the next frame reads *)
+Lemma next_prev_diff_slot : forall c r g, rwf 2 r ->
+    zth (zero_grid c) (slots (move (put r g))) (1 - cur (move (put r g))) = g.
+Proof.
+  intros c r g (Hs & Hc & Ho & Hl). unfold move, put, next_index_after.
+  cbn [size cur slots]. rewrite Hs, rem_next by assumption.
+  rewrite (zth_upd _ (zero_grid c) _ 2) by (auto; destruct (Z.eqb_spec (cur r + 1) 2); lia).
+  assert (E : cur r = 0 \/ cur r = 1) by lia. destruct E as [E|E]; rewrite E; reflexivity.
+Qed.
+
+Lemma new_diff_eq : forall c s1 s2 f, 1 <= d_gap c ->
+    ctrl_eq c s1 s2 -> fclean (blank_frame c) (s_floored s1) (s_floored s2) ->
+    new_diff c s1 f = new_diff c s2 f.
+Proof.
+  intros c s1 s2 f Hg [Hw1 Hw2 He Hd1 Hd2 Hde Hf Ha Ht] Hcl.
+  unfold new_diff, cmp_frame. rewrite Ht.
+  rewrite (oldest_put_eq _ (blank_frame c) (d_gap c + 1) (s_floored s1) (s_floored s2)) by (auto; lia).
+  reflexivity.
+Qed.
+
+Lemma related_detect : forall c s1 s2 f,
+    d_dynamic c = false -> 1 <= d_gap c -> related c s1 s2 ->
+    related c (fst (detect c s1 f)) (fst (detect c s2 f)) /\
+    snd (detect c s1 f) = snd (detect c s2 f).
+Proof.
+  intros c s1 s2 f Hd Hg [Hce Hfl Hdf].
+  assert (Hce' := ctrl_eq_detect c s1 s2 f f Hd Hce eq_refl).
+  pose proof Hce as Hce0.
+  destruct Hce as [Hw1 Hw2 He Hd1 Hd2 Hde Hf Ha Ht].
+  assert (Hb : ffc_branch s1 f = ffc_branch s2 f) by (unfold ffc_branch; now rewrite Hf, Ha).
+  split; [constructor|].
+  - exact Hce'.
+  - left. rewrite !detect_fixed_floored by assumption. rewrite <- Hb.
+    destruct (ffc_branch s1 f) eqn:Eb.
+    + apply (fclean_mark _ _ (d_gap c + 1)); auto; lia.
+    + destruct Hfl as [Hcl|[H1 H2]].
+      * apply (fclean_step _ _ (d_gap c + 1)); auto; lia.
+      * unfold ffc_branch in Eb. rewrite H1, H2, orb_true_r in Eb. discriminate.
+  - destruct Hfl as [Hcl|[H1 H2]].
+    + left. right. left.
+      rewrite !detect_fixed_diffs by assumption.
+      rewrite (next_prev_diff_slot c (s_diffs s1)) by apply Hd1.
+      pose proof (rceq_move _ _ _ (rceq_put _ _ _ (new_diff c s1 f) (new_diff c s2 f) Hde))
+        as (_ & Hc' & _).
+      rewrite Hc'. rewrite (next_prev_diff_slot c (s_diffs s2)) by apply Hd2.
+      apply new_diff_eq; auto.
+    + right. left. rewrite detect_fixed_firstdiff by assumption.
+      unfold ffc_branch. rewrite H1, H2, orb_true_r. reflexivity.
+  - rewrite !detect_fixed_verdict by assumption. rewrite <- Hf, <- Ha.
+    destruct (s_firstdiff s1) eqn:E1; [|reflexivity].
+    destruct (affected_by_ffc f || s_affected s1) eqn:E2; [reflexivity|]. cbn [negb andb].
+    apply orb_false_elim in E2. destruct E2 as [E2 E3].
+    destruct Hfl as [Hcl|[_ H2]]; [|congruence].
+    destruct Hdf as [Hdi|[H|H]]; [|congruence|congruence].
+    assert (Hnd : new_diff c s1 f = new_diff c s2 f).
+    { apply new_diff_eq; auto. }
+    rewrite <- Hnd.
+    rewrite !prev_diff_slot by (apply Hd1 || apply Hd2).
+    destruct Hde as (_ & Hdc & _). rewrite <- Hdc.
+    destruct Hdi as [Hone|[Hsl|Hself]].
+    + now apply has_motion_one.
+    + now rewrite Hsl.
+    + apply has_motion_self.
+      * intros y x. unfold new_diff, cmp_frame.
+        rewrite (oldest_put_self _ (blank_frame c) (d_gap c + 1)) by assumption.
+        apply diff_grid_self.
+      * destruct Hd1 as ((_ & Hc1 & _) & H0 & H1).
+        assert (E : cur (s_diffs s1) = 0 \/ cur (s_diffs s1) = 1) by lia.
+        destruct E as [E|E]; rewrite E; assumption.
+      * destruct Hd1 as ((_ & Hc1 & _) & _). destruct Hd2 as (_ & H0 & H1).
+        assert (E : cur (s_diffs s1) = 0 \/ cur (s_diffs s1) = 1) by lia.
+        destruct E as [E|E]; rewrite E; assumption.
+Qed.
+
+Lemma related_reset : forall c s1 s2, ctrl_eq c s1 s2 -> related c (dreset s1) (dreset s2).
+Proof.
+  intros c s1 s2 Hce. constructor.
+  - now apply ctrl_eq_reset.
+  - left. unfold dreset. cbn [s_floored]. apply fclean_reset.
+  - left. right. right. reflexivity.
+Qed.
+
+(* entering at an FFC-affected frame, from equal control states and arbitrary data *)
+Lemma related_enter_ffc : forall c s1 s2 f,
+    d_dynamic c = false -> 1 <= d_gap c -> ctrl_eq c s1 s2 -> affected_by_ffc f = true ->
+    related c (fst (detect c s1 f)) (fst (detect c s2 f)) /\
+    snd (detect c s1 f) = snd (detect c s2 f).
+Proof.
+  intros c s1 s2 f Hd Hg Hce Haf.
+  assert (Hce' := ctrl_eq_detect c s1 s2 f f Hd Hce eq_refl).
+  split; [constructor|].
+  - exact Hce'.
+  - destruct Hce as [Hw1 Hw2 He Hd1 Hd2 Hde Hf Ha Ht].
+    destruct (s_firstdiff s1) eqn:E1.
+    + left. rewrite !detect_fixed_floored by assumption.
+      unfold ffc_branch. rewrite <- Hf, E1, Haf. cbn [andb orb].
+      apply (fclean_mark _ _ (d_gap c + 1)); auto; lia.
+    + right. rewrite detect_fixed_firstdiff, detect_affected by assumption.
+      unfold ffc_branch. rewrite E1. auto.
+  - right. right. now rewrite detect_affected.
+  - rewrite !detect_suppressed by (now rewrite Haf). reflexivity.
+Qed.
+
+Lemma related_run : forall c evs s1 s2,
+    d_dynamic c = false -> 1 <= d_gap c -> related c s1 s2 ->
+    map fst (drun c s1 evs) = map fst (drun c s2 evs).
+Proof.
+  intros c evs. induction evs as [|e t IH]; intros s1 s2 Hd Hg Hr; [reflexivity|].
+  destruct e as [f|].
+  - rewrite !drun_frame. cbn [map fst].
+    destruct (related_detect c s1 s2 f Hd Hg Hr) as [Hr' Hv].
+    rewrite Hv. f_equal. now apply IH.
+  - rewrite !drun_reset. cbn [map fst]. f_equal. apply IH; auto.
+    apply related_reset, Hr.
+Qed.
 
 (* same shape: resets at the same positions, frames FFC-affected at the same positions *)
 Definition same_shape (a b : list dev) : Prop :=
@@ -17,6 +640,16 @@ Definition same_shape (a b : list dev) : Prop :=
                       | DFrame f, DFrame g => affected_by_ffc f = affected_by_ffc g
                       | _, _ => False end) a b.
 
+(* streams of the same shape lead to the same control state *)
+Lemma ctrl_eq_dfinal : forall c a b, d_dynamic c = false -> same_shape a b ->
+    forall s1 s2, ctrl_eq c s1 s2 -> ctrl_eq c (dfinal c s1 a) (dfinal c s2 b).
+Proof.
+  intros c a b Hd H. induction H as [|x y a b Hxy Hab IH]; intros s1 s2 Hce; [exact Hce|].
+  destruct x as [f|], y as [g|]; try contradiction; cbn [dfinal]; apply IH.
+  - now apply ctrl_eq_detect.
+  - now apply ctrl_eq_reset.
+Qed.
+
 (* two streams of the same shape that agree from an FFC-affected frame [f] on give the
    same verdicts from that frame on *)
 Theorem ffc_independent : forall c pre1 pre2 f post,
@@ -24,7 +657,13 @@ Theorem ffc_independent : forall c pre1 pre2 f post,
     same_shape pre1 pre2 -> affected_by_ffc f = true ->
     skipn (length pre1) (verdicts c (pre1 ++ DFrame f :: post)) =
     skipn (length pre2) (verdicts c (pre2 ++ DFrame f :: post)).
-Admitted.
+Proof.
+  intros c pre1 pre2 f post Hd _ Hg Hsh Haf. rewrite !verdicts_skip.
+  assert (Hce := ctrl_eq_dfinal c pre1 pre2 Hd Hsh _ _ (ctrl_eq_init c Hg)).
+  rewrite !drun_frame. cbn [map fst].
+  destruct (related_enter_ffc c _ _ f Hd Hg Hce Haf) as [Hr Hv].
+  rewrite Hv. f_equal. now apply related_run.
+Qed.
 
 (* ... and the same after a camera reset *)
 Theorem reset_independent : forall c pre1 pre2 post,
@@ -32,4 +671,9 @@ Theorem reset_independent : forall c pre1 pre2 post,
     same_shape pre1 pre2 ->
     skipn (length pre1) (verdicts c (pre1 ++ DReset :: post)) =
     skipn (length pre2) (verdicts c (pre2 ++ DReset :: post)).
-Admitted.
+Proof.
+  intros c pre1 pre2 post Hd _ Hg Hsh. rewrite !verdicts_skip.
+  assert (Hce := ctrl_eq_dfinal c pre1 pre2 Hd Hsh _ _ (ctrl_eq_init c Hg)).
+  rewrite !drun_reset. cbn [map fst]. f_equal.
+  apply related_run; auto. now apply related_reset.
+Qed.
